@@ -116,7 +116,7 @@ def check_ph(case, ctx):
     with sut(detector="PageHinkley"):
         det = PageHinkley(**p)
     decoy = Decoy(lambda: PageHinkley(**p), lambda d, v: d.update(v))
-    fk = Forker(PageHinkleyModel(p["delta"], p["threshold"], p["burn_in"], p["direction"]), copier=lambda m: m.clone())
+    fk = Forker(PageHinkleyModel(p["delta"], p["threshold"], p["burn_in"], p["direction"], exact_zero=True), copier=lambda m: m.clone())
     nalarm = 0
     every = case.get("df_every", 1)
     for i, x in enumerate(xs):
@@ -162,6 +162,8 @@ def check_ph(case, ctx):
         nalarm += obs == "drift"
     if fk.forked_steps:
         ctx.label("met-tie")
+    if fk.states[0].exact_tests:
+        ctx.label("exact-zero-epoch")
     ctx.label("dir=" + str(p["direction"]), f"burn_in={min(p['burn_in'], 2)}")
     if nalarm >= 2:
         ctx.label("alarms>=2")
@@ -177,6 +179,13 @@ def strat_ph(tier):
             "direction": draw(st.sampled_from(["positive", "negative"])),
         }
         xs = draw(vs.real_stream(min_segments=3, max_segments=8, seg_min=6, seg_max=50, max_total=300, level_range=20, spreads=(1, 1, 2, 8)))
+        if draw(st.integers(0, 5)) == 0:
+            # a stretch of exact zeros past the burn-in (error indicator of a perfect classifier): statistic and alarm level are both 0
+            zeros = [0.0] * (p["burn_in"] + draw(st.integers(2, 30)))
+            k = draw(st.integers(0, 1))
+            xs = (zeros + xs) if k == 0 else (xs + zeros)
+            if p["delta"] == 0.01:
+                p["delta"] = 0.0078125
         return {"params": p, "xs": xs, "df_every": draw(st.sampled_from([1, 3]))}
 
     return s()
@@ -190,15 +199,15 @@ PROPERTY = {
         "direction x known/estimated target; drift_state after every update vs. the reference two-/one-sided CUSUM on the current "
         "observations with (mu, sigma) given / from the first burn_in / re-estimated from the last burn_in observations; non-trivial = "
         ">= 2 alarms, i.e. at least one alarm in an epoch with re-estimated constants. page_hinkley: same streams x burn_in 0..10; "
-        "state and every to_dataframe() column vs. exact-rational recurrences; non-trivial = >= 2 alarms."
+        "state and every to_dataframe() column vs. exact-rational recurrences; one case in six carries a stretch of exact zeros past the burn-in; non-trivial = >= 2 alarms."
     ),
     "assumptions": [
         "CUSUM burn_in < 2 and estimation windows with zero variance are outside the documented domain (case truncated, counted)",
-        "decisions within 1e-9 relative of the threshold admit both outcomes",
+        "decisions within 1e-9 relative of the threshold admit both outcomes - except Page-Hinkley on an epoch of exact zeros (error indicator of a perfect classifier), where statistic and alarm level are 0 in every evaluation order and the documented 'larger than' is decided strictly",
         "Page-Hinkley's alarm level is threshold * running mean, as documented in the class",
     ],
     "subchecks": [
-        SubCheck("cusum", check_cusum, strategy=strat_cusum, nontrivial=lambda L: "alarms>=2" in L, quick=1000, thorough=25000, shards_quick=8),
-        SubCheck("page_hinkley", check_ph, strategy=strat_ph, nontrivial=lambda L: "alarms>=2" in L, quick=700, thorough=25000, shards_quick=8),
+        SubCheck("cusum", check_cusum, strategy=strat_cusum, nontrivial=lambda L: "alarms>=2" in L, quick=1000, thorough=50000, shards_quick=8),
+        SubCheck("page_hinkley", check_ph, strategy=strat_ph, nontrivial=lambda L: "alarms>=2" in L, quick=700, thorough=50000, shards_quick=8),
     ],
 }
